@@ -833,6 +833,15 @@ class Interp:
                 self._sum([a.mul(a.const(Q[i, j]), v[j]) for j in range(len(v))])
                 for i in range(Q.shape[0])
             ]
+        if k == "vM":  # vector @ constant 2-D array: NumPy's x @ M = M.T @ x
+            Q = np.asarray(n[2], dtype=float)
+            v = self.V(n[1])
+            if Q.ndim != 2 or Q.shape[0] != len(v):
+                raise ShapeError("vector @ matrix")
+            return [
+                self._sum([a.mul(a.const(Q[i, j]), v[i]) for i in range(len(v))])
+                for j in range(Q.shape[1])
+            ]
         if k == "Mv":  # matrix variable @ vector
             m = self.M(n[1])
             v = self.V(n[2])
